@@ -47,8 +47,8 @@ type c16 struct{}
 
 func init() { register(&c16{}) }
 
-func (*c16) ID() string                      { return "C16" }
-func (*c16) Level() string                   { return "exploration" }
+func (*c16) ID() string                     { return "C16" }
+func (*c16) Level() string                  { return "exploration" }
 func (*c16) Decode(raw []byte) (any, error) { return decodeInto[C16Scenario](raw) }
 
 var c16Mechs = []string{"PLAIN-NOENC", "LOGIN-NOENC", "CRAM-MD5", "XOAUTH2", "SCRAM-SHA-1", "SCRAM-SHA-256", "PLAIN", "LOGIN", "SCRAM-SHA-256-PLUS", "SCRAM-SHA-1-PLUS", "AUTODISCOVER", "CUSTOM-PLAIN", "CUSTOM-LOGIN"}
